@@ -547,8 +547,7 @@ def run(ctx):
     for _ in range(n):
         sig, values, off, le, fdarg, kind = gen_malformed_marshal(rng, pool)
         if inference_unsettled(values):
-            ctx.stat('skipped:inference-rule-under-repair-by-C19')
-            continue
+            ctx.stat('malformed-marshal:touches-repaired-inference-rule')      # C19-02 / C19-03, applied in /repo (e6a737a, b75345d)
         try:
             sample = {'sig': sig, 'values': vc.to_line(values), 'kind': kind}
         except ValueError:
